@@ -3,7 +3,6 @@ from .. import backtest
 from ..oracles.ledger import LedgerMonitor
 from ..oracles.closure import ClosureMonitor
 from . import common
-from .common import sample_view, shrink  # noqa
 
 ID = "C20"
 LEVEL = "exploration"
@@ -11,19 +10,24 @@ TECHNIQUE = "deterministic simulation; for every closing update of generated his
 BUDGET = {"quick": {"runs": 10000, "wall": 45}, "thorough": {"runs": 500000, "wall": 900}}
 RULE = (
     "one evaluation = one seeded backtest over 1-3 markets with one or more CLOSED updates (repeats, data after close, first update closed), 1-3 strategies with "
-    "different market subscriptions, 0-2 extra middlewares, 1-2 clients; non-trivial = a CLOSED update was repeated or followed by more data, or strategies had "
+    "different market subscriptions, 0-2 extra middlewares, 1-2 clients; or one live session over 2-4 markets closing 10 s .. 2 h apart with an empty-filter strategy; non-trivial = a CLOSED update was repeated or followed by more data, or strategies had "
     "different subscriptions; distinct = distinct scenario digests"
 )
 ASSUMPTIONS = [
     "'once' is per closing update received (streams do repeat CLOSED)",
     "in backtest mode a closing update for a market of which no earlier update was processed has no market object to close and is ignored by design; nothing is demanded for it",
-    "World A only: the live retention rule (removal only after 3600 s closed) and empty-filter strategies need the live loop",
+    "70% World A backtests, 30% World B live sessions (real Flumine.run() loop under the simulated clock) for the closure callbacks of empty-filter strategies and the retention rule (removal only after more than 3600 simulated seconds closed, at the next close event)",
+    "raw-data recorder mode (dict updates) is not generated",
 ]
 COMPONENTS = common.COMPONENTS_A
 MONITORS = [LedgerMonitor, ClosureMonitor]
 
 
 def generate(rng, i, tier):
+    if rng.random() < 0.3:
+        from .. import livegen
+
+        return livegen.gen_live_closure(rng)
     n_markets = rng.choice([1, 2, 3])
     knobs = {
         "p_close": 1.0,
@@ -52,4 +56,25 @@ def generate(rng, i, tier):
 
 
 def execute(scenario):
+    if scenario.get("world") == "B":
+        from .. import live
+        from ..oracles.closure import LiveClosureMonitor
+
+        return live.run_scenario(scenario, [LiveClosureMonitor], owner=ID)
     return backtest.run_scenario(scenario, MONITORS, owner=ID)
+
+
+def sample_view(scenario):  # noqa: F811
+    if scenario.get("world") == "B":
+        from . import C11
+
+        return C11.sample_view(scenario)
+    return common.sample_view(scenario)
+
+
+def shrink(scenario, test, deadline):  # noqa: F811
+    if scenario.get("world") == "B":
+        from . import C11
+
+        return C11.shrink_live(scenario, test, deadline)
+    return common.shrink(scenario, test, deadline)
